@@ -11,7 +11,7 @@ CONSTANTS MaxCalls,      \* budget of tag/view API calls
           Invalid,       \* TRUE: also issue calls that must be rejected (C11)
           Crashes,       \* TRUE: also take crash copies of the data directory (C12; no effect on the model state)
           Restarts,      \* TRUE: the process may be killed between two steps and restarted (C12; spends a call)
-          Extra          \* subset of {"rename", "color", "settings", "convdir"}: further calls / environment events to issue
+          Extra          \* subset of {"rename", "color", "settings", "convdir", "mergefail"}: further calls / environment events to issue
 
 VARIABLES clock, calls,
           lost,          \* history: captures that were only queued when the process was killed (never imported afterwards)
@@ -77,6 +77,7 @@ ApiEvents ==
              \cup {EvW(a, "", u, "", 0) : a \in {"AddEndpoint", "DelEndpoint"}, u \in EndpointAddrs \cup (IF Invalid THEN {"nocolon"} ELSE {})}
              \cup {EvW("SetConfig", "", "", "", k) : k \in {0, 1}}
           ELSE {})
+    \cup (IF "mergefail" \in Extra THEN {E0("MergeFail")} ELSE {})
     \cup (IF ConvNames = {} THEN {} ELSE
              {EvC("SetConverters", n, cs, "", 0) : n \in TagNames, cs \in ConvLists}
              \cup {EvC("ConvReset", "", <<c>>, "", 0) : c \in ConvNames}
@@ -117,6 +118,7 @@ Step(e) ==
       [] e.a = "MergeCompute"  -> /\ MergeCompute(FileName(clock + 1))
                                   /\ NewFile(FileName(clock + 1), Append(fkey[jobs.merge.idx[Len(jobs.merge.idx)]], 0))
       [] e.a = "MergeDone"     -> MergeDone /\ Free
+      [] e.a = "MergeFail"     -> Budget /\ MergeFail /\ Spend
       [] e.a = "ConvCompute"   -> ConvCompute /\ Free
       [] e.a = "ConvDone"      -> (\E p \in AnyP : ConvDone(p)) /\ Free
       [] e.a = "AddTag"        -> /\ e.def \in DefsFor(e.name) \cup BadDefsFor(e.name)
